@@ -52,7 +52,13 @@ func runC28(c *core.Ctx) error {
 		}
 		seen[k] = true
 		old := bases[m.B-1].S
-		r, err := l.lint(old, m.New)
+		var r *lintResp
+		var err error
+		if len(m.Log) <= 1 || rnd.Intn(10) == 0 {
+			r, err = l.lint(old, m.New)
+		} else {
+			r, err = l.lintFast(old, m.New)
+		}
 		if err != nil {
 			return err
 		}
@@ -90,7 +96,7 @@ func runC28(c *core.Ctx) error {
 		var small []NamedBase
 		var idx []int
 		for i, b := range bases {
-			if len(small) < 8 {
+			if len(small) < 5 {
 				small = append(small, b)
 				idx = append(idx, i+1)
 			}
@@ -104,13 +110,13 @@ func runC28(c *core.Ctx) error {
 		c.Add("transitions", res2.Generated)
 		c.Logf("pairs of edits (exhaustive over %d bases): %d states (%v)", len(small), res2.Distinct, res2.Wall.Round(time.Second))
 	} else {
-		res2, err := runMC(c, bases, mcOpts{Mode: "mixed", MaxEdits: 2, EvalWC: false, Strict: false, Workers: 4, Simulate: 600,
+		res2, err := runMC(c, bases, mcOpts{Mode: "mixed", MaxEdits: 2, EvalWC: false, Strict: false, Workers: 4, Simulate: 100,
 			Timeout: 3 * time.Minute}, handle)
 		if err != nil {
 			return err
 		}
 		c.Add("transitions", res2.Generated)
-		c.Logf("pairs of edits (600 random behaviours): %d states visited (%v)", res2.Generated, res2.Wall.Round(time.Second))
+		c.Logf("pairs of edits (random behaviours): %d states visited (%v)", res2.Generated, res2.Wall.Round(time.Second))
 	}
 	c.Logf("pairs recorded: %d; linter accepted=%d rejected=%d", len(cases), accepted, rejected)
 	c.Set("impl_accepted", accepted)
